@@ -99,9 +99,11 @@ def streams(ctx):
     import json as _json
     hc = []
     TAGLISTS = [[("v4.2.0-rc.1", "a" * 40), ("v4.2.0", "b" * 40), ("v4.1.6", "c" * 40)], [("v4.2.0", "b" * 40)], [("v4.2.0-rc.1", "a" * 40)], [],
-                [("v4", "1" * 40), ("v4.2", "2" * 40), ("v4.2.0", "3" * 40)], [("V4.2.0", "9" * 40)]]
+                [("v4", "1" * 40), ("v4.2", "2" * 40), ("v4.2.0", "3" * 40)], [("V4.2.0", "9" * 40)],
+                # tag names that differ only by a leading 'v' (both published, different commits; only the twin published)
+                [("4.2.0", "7" * 40), ("v4.2.0", "b" * 40)], [("4.2.0", "7" * 40)], [("vv4.2.0", "6" * 40), ("v4.2", "2" * 40)], [("v4.2.0", "b" * 40), ("4.2.0", "7" * 40)]]
     for tl in TAGLISTS:
-        for tag in ("v4.2.0", "v4.2", "v4", "v4.2.0-rc.1", "v9", ""):
+        for tag in ("v4.2.0", "v4.2", "v4", "v4.2.0-rc.1", "v9", "", "4.2.0"):
             for status in (200, 404, 429, 500, 403):
                 body = _json.dumps([{"name": n, "commit": {"sha": s, "url": "u"}, "zipball_url": "z"} for n, s in tl])
                 if rng.chance(1, 10):
